@@ -382,8 +382,11 @@ def r5_normal_form(rep, src):
     from . import C04
     px = _Proxy(rep)
     alpha = rx.alphabet('str')
-    f, term, raised = C04.extract_block_template(src, px)
-    lines = C04.cut_lines(term)
+    f, terms, raised = C04.extract_block_template(src, px, all_terms=True)
+    lines = C04.cut_lines(terms[0])
+    # every layout the writer has for a complete block is header / stored change lines / trailer / stored trailing lines
+    for k_, t_ in enumerate(terms):
+        C04.r4_layout(px, C04.cut_lines(t_), f, ' (content-dependent layout %d)' % (k_ + 1) if k_ else '')
     if len(lines) < 3 or lines[0][0] != 'line':
         raise AnalysisError('%s: block template has no header line' % f.site)
     C04.r1_header(px, src, f, lines[0][1], alpha)
